@@ -14,6 +14,8 @@ def _od():
         C.mkvar("Modes of operation", 0x6060, 0, I8, "rw"),
         C.mkvar("Modes of operation display", 0x6061, 0, I8, "ro"),
         C.mkvar("Supported drive modes", 0x6502, 0, C.U32, "ro"),
+        C.pdo_comm_record(0x1401, "RPDO2 communication parameter"),
+        C.pdo_map_array(0x1601, "RPDO2 mapping parameter"),
     ])
 
 
@@ -143,9 +145,9 @@ def _attach_disabled_pdo(node, drive):
 
 def transition(initial, target, transport):
     node = _node()
-    drive = D.Drive(initial, auto_delay=sx.choice(3, "auto_delay"))
+    drive = D.Drive(initial, auto_delay=sx.choice(3, "auto_delay"), qsa_auto=(transport == "sdo-qsa-auto"))
     sx.env().tick = 0.02
-    if transport == "sdo":
+    if transport in ("sdo", "sdo-qsa-auto"):
         _attach_sdo(node, drive)
     elif transport == "pdo-disabled":
         _attach_disabled_pdo(node, drive)
@@ -260,7 +262,7 @@ def op_mode(mode):
     sx.reach("mode-set")
 
 
-def op_mode_pdo(first, second):
+def op_mode_pdo(first, second, layout="shared"):
     """Operation mode carried by PDO: 0x6060 shares RPDO1 with the controlword, 0x6061 comes with the statusword in
     an event-driven TPDO1.  Two assignments (each accepted or refused according to a symbolic support mask), then a
     state change that sends the RPDO again: every mode code the drive ever receives belongs to an accepted
@@ -271,24 +273,37 @@ def op_mode_pdo(first, second):
     net = sx.mod("canopen.network").Network()
     rx_modes = []
 
+    # layout 'shared': RPDO1 = controlword + mode.  layout 'split' (the CiA 402 default mapping): RPDO1 = controlword
+    # alone, RPDO2 = controlword + mode; the mode only travels in RPDO2
+    mode_cob = 0x203 if layout == "shared" else 0x303
+
     def send(cid, data, remote=False):
-        if cid == 0x203:
-            it = sx.items(data)
-            before = (drive.state, drive.mode)
+        it = sx.items(data)
+        if cid == 0x203 or cid == 0x303:
             drive.write_controlword(sx.le_int(it[0:2]))
+        if cid == mode_cob:
             m = sx.le_int(it[2:3], True)
             rx_modes.append(m)
             drive.mode = m
-            net.notify(0x183, sx.mkbytes(sx.items(_le(drive.statusword(), 2)) + [m & 0xFF]), sx.env().now)
+        if cid == 0x203 or cid == 0x303:
+            net.notify(0x183, sx.mkbytes(sx.items(_le(drive.statusword(), 2)) + [drive.mode & 0xFF]), sx.env().now)
     net.send_message = send
     net.add_node(node)
     _attach_sdo(node, drive)
     r = node.rpdo[1]
     r.clear()
     r.add_variable(0x6040)
-    r.add_variable(0x6060)
+    if layout == "shared":
+        r.add_variable(0x6060)
     r.cob_id = 0x203
     r.enabled = True
+    if layout == "split":
+        r2 = node.rpdo[2]
+        r2.clear()
+        r2.add_variable(0x6040)
+        r2.add_variable(0x6060)
+        r2.cob_id = 0x303
+        r2.enabled = True
     t = node.tpdo[1]
     t.clear()
     t.add_variable(0x6041)
@@ -300,7 +315,7 @@ def op_mode_pdo(first, second):
     net.notify(0x183, sx.mkbytes(sx.items(_le(drive.statusword(), 2)) + [0]), 1.0)
     drive.supported = sx.fresh_int("supported", 0, 0xFFFFFFFF)
     allowed = [0]
-    key = "C19/op_mode_pdo/%s/%s" % (first, second)
+    key = "C19/op_mode_pdo/%s/%s%s" % (first, second, "" if layout == "shared" else "/" + layout)
     for mode in (first, second):
         code, bit = D.MODES[mode]
         sup = ((drive.supported >> bit) & 1) == 1
@@ -341,6 +356,9 @@ def jobs(tier):
             out.append(dict(func="transition", params=dict(initial=ini, target=tgt, transport="pdo-event"), weight=3))
             if tgt in D.COMMANDABLE:
                 out.append(dict(func="transition", params=dict(initial=ini, target=tgt, transport="pdo-disabled"), weight=2))
+            if tgt in D.COMMANDABLE and tgt != D.QSA and ini in (D.QSA, D.OE):
+                # a drive that leaves QUICK STOP ACTIVE on its own (option code 1-3) while the library is working
+                out.append(dict(func="transition", params=dict(initial=ini, target=tgt, transport="sdo-qsa-auto"), weight=2))
         for tgt in ("DISABLE VOLTAGE", "BOGUS"):
             out.append(dict(func="bad_target", params=dict(initial=ini, target=tgt)))
     for mode in D.MODES:
@@ -350,6 +368,7 @@ def jobs(tier):
         [(a, b) for a in names for b in names if a != b]
     for a, b in pairs:
         out.append(dict(func="op_mode_pdo", params=dict(first=a, second=b), weight=2))
+        out.append(dict(func="op_mode_pdo", params=dict(first=a, second=b, layout="split"), weight=2))
     starts = (D.SOD, D.FAULT, D.OE) if tier == "quick" else D.ALL_STATES
     for ini in starts:
         for t1 in D.COMMANDABLE:
